@@ -101,7 +101,7 @@ func (s *Server) Initialize(ctx context.Context, params *protocol.InitializePara
 	if s.rootURI != "" {
 		s.workspace = workspace.NewWorkspace(s.rootURI, s.loader)
 		s.workspace.SetOpenTextSource(func(path string) (string, bool) {
-			return s.GetDocument(pathToURI(path))
+			return s.openDocumentByPath(path)
 		})
 	}
 
@@ -520,6 +520,26 @@ func (s *Server) GetDocument(uri protocol.DocumentURI) (string, bool) {
 	return "", false
 }
 
+// openDocumentByPath finds the open document that is the file at path. Editors do not
+// agree on which characters of a path they percent-encode ("R&D" is sent as "R%26D" by
+// some and as "R&D" by others), so the URI built from the path need not be the key the
+// document was stored under: compare paths, not spellings of URIs.
+func (s *Server) openDocumentByPath(path string) (string, bool) {
+	if text, ok := s.GetDocument(pathToURI(path)); ok {
+		return text, true
+	}
+	var text string
+	found := false
+	s.documents.Range(func(key, value any) bool {
+		if docURI, ok := key.(protocol.DocumentURI); ok && uriToPath(docURI) == path {
+			text, found = value.(string)
+			return !found
+		}
+		return true
+	})
+	return text, found
+}
+
 func (s *Server) Format(ctx context.Context, params *protocol.DocumentFormattingParams) ([]protocol.TextEdit, error) {
 	doc, ok := s.GetDocument(params.TextDocument.URI)
 	if !ok {
@@ -644,7 +664,7 @@ func (s *Server) withOpenDocuments(resolved *include.ResolvedJournal) *include.R
 	}
 	var out *include.ResolvedJournal
 	for path := range resolved.Files {
-		text, ok := s.GetDocument(pathToURI(path))
+		text, ok := s.openDocumentByPath(path)
 		if !ok {
 			continue
 		}
